@@ -224,3 +224,14 @@ Example C01_source_read_example :
   /\ ImpGen.imp_fastard_reader_read 5 (GoSem.Stream [] 1%Z None) = GoSem.Ret (GoSem.Stream [] 1%Z None, (ImpGen.Imp_fastard_Fasta [] [], 1%Z))
   /\ ImpGen.imp_fastard_reader_read 9 (GoSem.Stream (bs ">a") 2%Z None) = GoSem.Ret (GoSem.Stream [] 2%Z None, (ImpGen.Imp_fastard_Fasta [] [], 2%Z)).
 Proof. vm_compute. repeat split. Qed.
+
+(* reader.iter as translated from iter.go — read() until it fails, an error other than
+   io.EOF yielded as the last item — yields to a consumer that never stops exactly the items
+   of the model's decode, for every input and both terminal conditions (the composition of
+   the translated read with the translated loop; Reader and File only forward the items). *)
+Theorem C01_iter_is_source : forall fuel inp t, (length inp + 2 < fuel)%nat ->
+  ImpGen.imp_fastard_reader_iter fuel (GoSem.Stream inp (ImpProofsJ.term_code t) None)
+  = GoSem.Ret (GoSem.Stream [] (ImpProofsJ.term_code t) None,
+               map (ImpProofsJ.fa_item t) (Bio.Model.Fasta.decode inp t)).
+Proof. exact ImpProofsJ.imp_fasta_iter. Qed.
+Print Assumptions C01_iter_is_source.
